@@ -57,6 +57,8 @@ pub enum ApChangeError {
     SolvingApChangeEquationFailed,
     #[error("#{0}: the ap change of a branch is larger than the ap change left at its target")]
     InconsistentApChange(StatementIdx),
+    #[error("#{0}: ap change overflow")]
+    ApChangeOverflow(StatementIdx),
 }
 
 /// Helper to implement the `InvocationApChangeInfoProvider` for the equation generation.
